@@ -310,6 +310,14 @@ def timer_shape(prog, rep):
             if meth == 'reset' and not rearm:
                 why = 'handler does not re-arm with reactor.callLater(delay, self.callable)'
                 continue
+            if meth == 'reset':
+                param = f.params[1] if len(f.params) > 1 else None
+                rebinds = [n for n in ast.walk(f.node) if isinstance(n, ast.Name) and n.id == param
+                           and isinstance(n.ctx, ast.Store)]
+                if rebinds:
+                    why = 'the requested delay is rewritten before it is used (line %d): the timer no longer runs ' \
+                          'for the interval the state machine computed (H/3 is fractional)' % rebinds[0].lineno
+                    continue
             ok = True
         if ok:
             rep.ok('R03.g', 'BGPTimer.%s' % meth, file=f.file, line=f.node.lineno)
